@@ -22,6 +22,13 @@ CHECKS = {
  "C13": ("E1 value-symbolic: unmarshal(T, v) == v with identical classes for symbolic valid v (unbounded ints, symbolic strs incl. the "
          "solver-found 2-character first field), an adversarial-string variant, and idempotence unmarshal(T, unmarshal(T, x)) on arbitrary "
          "x in J and on wire forms.", "4/C13", "CrossHair symbolic execution of the real unmarshallers, z3 path exhaustion, native replay"),
+ "C05": ("E1 differential, both sides real: the composite routine vs the composite rebuilt from the results of the member routines "
+         "obtained independently per member annotation, with exception parity, on symbolic member inputs; marshal direction on symbolic "
+         "valid values; structured sources in five shapes chosen by a symbolic selector; adversarial-naming fixture modules.", "4/C05",
+         "CrossHair symbolic differential execution of composite vs member routines, z3 path exhaustion, native replay"),
+ "C08": ("E1 per ordered member tuple: unmarshal(Union[...], x) on x in J vs the first success, in declaration order, of the independently "
+         "built member routines (any Exception = rejection), None honoured at every position, ValueError iff all reject; same for marshal.",
+         "4/C08", "CrossHair symbolic execution of the union routines against a first-acceptor oracle, z3 path exhaustion, native replay"),
 }
 NA = {
  "C17": "flat catalogue of CPython type objects compared with CPython's own issubclass/typing internals: neither side can be encoded for a solver and there is no value, shape, state or history to make symbolic (DESIGN.md section 7)",
